@@ -9,6 +9,8 @@ import Switcher.Spec.Days
 import Switcher.Spec.Clock
 import Switcher.Spec.Layout
 import Switcher.Spec.Faults
+import Switcher.Spec.Replies
+import Switcher.Spec.Broadcast
 import Switcher.Model.Wire
 open Spec Wire
 
@@ -30,6 +32,31 @@ def parseOp : List String → Option Op
   | ["setpos", p] => do pure (.setPosition (← nat? p))
   | ["breezecmd", payload] => do pure (.breezeCommand (← bytesOfHex? payload))
   | ["breezestatus", st, md, t, f, w] => do pure (.breezeStatus (← nat? st) (← nat? md) (← nat? t) (← nat? f) (← nat? w))
+  | _ => none
+
+def tenthsS (n : Nat) : String := s!"{n / 10}.{n % 10}"
+
+def parseCommon : List String → Option Common
+  | [id, key, ip, mac, name] => do
+    pure { id := ← bytesOfHex? id, key := ← nat? key, ip := ← bytesOfHex? ip, mac := ← bytesOfHex? mac, name := ← text? name }
+  | _ => none
+
+def parseT1 : List String → Option Type1
+  | tn :: code :: heater :: on :: power :: rem :: auto :: rest => do
+    pure { c := ← parseCommon rest, typeName := tn, code := ← bytesOfHex? code, heater := heater == "1", on := on == "1",
+           power := ← nat? power, remaining := ← nat? rem, autoShutdown := ← nat? auto }
+  | _ => none
+
+def parseSh : List String → Option ShutterB
+  | tn :: code :: pos :: dir :: rest => do
+    pure { c := ← parseCommon rest, typeName := tn, code := ← bytesOfHex? code, position := ← nat? pos, direction := ← nat? dir }
+  | _ => none
+
+def parseTh : List String → Option ThermoB
+  | tn :: code :: on :: mode :: fan :: swing :: temp :: target :: remote :: rest => do
+    pure { c := ← parseCommon rest, typeName := tn, code := ← bytesOfHex? code,
+           t := { on := on == "1", mode := ← nat? mode, fan := ← nat? fan, swing := swing == "1", tempTenths := ← nat? temp,
+                  target := ← nat? target, remote := ← bytesOfHex? remote } }
   | _ => none
 
 def judge : List String → String
@@ -102,6 +129,58 @@ def judge : List String → String
     | some n => if c09ok (sq == "1") (t2 == "1") (le == "1") n (o1 ++ " " ++ o2) then "1" else "0"
     | none => "bad-arg"
   | ["c09base", replyEmpty, reported] => if baseOk (replyEmpty == "1") (reported == "1") then "1" else "0"
+  | ["c08enc", "state", bg, on, p, l, o, a] =>     -- reference encoders of replies (C08)
+    match bytesOfHex? bg, nat? p, nat? l, nat? o, nat? a with
+    | some b, some p, some l, some o, some a => hexOfBytes (encodeState1 b { on := on == "1", power := p, timeLeft := l, timeOn := o, autoShutdown := a })
+    | _, _, _, _, _ => "bad-arg"
+  | ["c08exp", "state", on, p, l, o, a] =>
+    match nat? p, nat? l, nat? o, nat? a with
+    | some p, some l, some o, some a =>
+      s!"state {if on == "1" then "ON" else "OFF"} {String.ofList (isoTime l)} {String.ofList (isoTime o)} {String.ofList (isoTime a)} {p} {tenthsS (ampsTenths p)}"
+    | _, _, _, _ => "bad-arg"
+  | ["c08enc", "shutter", bg, pos, dir] =>
+    match bytesOfHex? bg, nat? pos, nat? dir with
+    | some b, some p, some d => hexOfBytes (encodeShutter b { position := p, direction := d })
+    | _, _, _ => "bad-arg"
+  | ["c08exp", "shutter", pos, dir] =>
+    match nat? pos, nat? dir with
+    | some p, some d => s!"shutter {p} {directionName d}"
+    | _, _ => "bad-arg"
+  | ["c08enc", "thermo", bg, on, mode, fan, swing, temp, target, remote] =>
+    match bytesOfHex? bg, nat? mode, nat? fan, nat? temp, nat? target, bytesOfHex? remote with
+    | some b, some m, some f, some t, some g, some r =>
+      hexOfBytes (encodeThermo b { on := on == "1", mode := m, fan := f, swing := swing == "1", tempTenths := t, target := g, remote := r })
+    | _, _, _, _, _, _ => "bad-arg"
+  | ["c08exp", "thermo", on, mode, fan, swing, temp, target, remote] =>
+    match nat? mode, nat? fan, nat? temp, nat? target, bytesOfHex? remote with
+    | some m, some f, some t, some g, some r =>
+      s!"thermo {if on == "1" then "ON" else "OFF"} {modeName m} {fanName f} {tenthsS t} {g} {if swing == "1" then "ON" else "OFF"} {encText (r.map Char.ofNat)}"
+    | _, _, _, _, _ => "bad-arg"
+  | ["c08enc", "login", bg, sid] =>
+    match bytesOfHex? bg, bytesOfHex? sid with
+    | some b, some s => hexOfBytes (encodeLogin b s)
+    | _, _ => "bad-arg"
+  | "c05enc" :: "t1" :: bg :: rest => match bytesOfHex? bg, parseT1 rest with
+    | some b, some d => hexOfBytes (encodeType1 b d)
+    | _, _ => "bad-arg"
+  | "c05exp" :: "t1" :: rest => match parseT1 rest with
+    | some d => "device " ++ showDev (expectType1 d)
+    | none => "bad-arg"
+  | "c05enc" :: "shutter" :: bg :: rest => match bytesOfHex? bg, parseSh rest with
+    | some b, some d => hexOfBytes (encodeShutterB b d)
+    | _, _ => "bad-arg"
+  | "c05exp" :: "shutter" :: rest => match parseSh rest with
+    | some d => "device " ++ showDev (expectShutterB d)
+    | none => "bad-arg"
+  | "c05enc" :: "thermo" :: bg :: rest => match bytesOfHex? bg, parseTh rest with
+    | some b, some d => hexOfBytes (encodeThermoB b d)
+    | _, _ => "bad-arg"
+  | "c05exp" :: "thermo" :: rest => match parseTh rest with
+    | some d => "device " ++ showDev (expectThermoB d)
+    | none => "bad-arg"
+  | ["c06gate", h] => match bytesOfHex? h with
+    | some m => if isBroadcast m then "1" else "0"
+    | none => "bad-arg"
   | _ => "bad-op"
 
 def main : IO Unit := do Wire.loop (← IO.getStdin) (← IO.getStdout) judge
